@@ -108,9 +108,22 @@ func init() {
 				do("incl", i64s(l1), s(t))
 			case 5:
 				big := randInts(6, 1<<40)
+				if rng.Intn(3) == 0 { // neighbours far above 2^53 (quadkeys reach 2^62): distinct int64 values, equal as float64
+					b := int64(1)<<uint(54+rng.Intn(8)) + int64(rng.Intn(1000))
+					big = []int64{b + 1, b + 3, b, b + 2}[:2+rng.Intn(3)]
+				}
 				do("max", i64s(big))
 			default:
 				big := randInts(6, 1<<40)
+				if rng.Intn(3) == 0 {
+					b := int64(1)<<uint(54+rng.Intn(8)) + int64(rng.Intn(1000))
+					big = []int64{b + 3, b + 1, b + 2, b + 4}[:2+rng.Intn(3)]
+					if rng.Intn(2) == 0 {
+						for i := range big {
+							big[i] = -big[i]
+						}
+					}
+				}
 				do("min", i64s(big))
 			}
 		}
